@@ -247,6 +247,19 @@ func Run(ctx *common.Ctx) {
 			ctx.Sample(d)
 		}
 	}
+	// the block of default forms, as lambda values
+	for _, v := range defaultFormLambdas() {
+		term, d, ok := observeData(v, []int{20, 120, 20 + g.r.Intn(101)})
+		if !ok {
+			continue
+		}
+		ctx.Hist("block:default-form-lambda")
+		ctx.Meta.Evaluations++
+		distinct[d.Value+d.Form] = true
+		terms = append(terms, term)
+		descs = append(descs, d)
+	}
+	nvalues = len(terms)
 	checkCalls(ctx, rng)
 	// ---- sessions -------------------------------------------------------------------------------
 	dir, err := os.MkdirTemp("", "verif-c19-")
@@ -268,9 +281,28 @@ func Run(ctx *common.Ctx) {
 	if ctx.Thorough() {
 		nmod, next = 1500, 1200
 	}
+	// enumerated blocks first (every run, independent of the seed), then the random sessions
+	type sessSpec struct {
+		forms, probes []string
+		wild, wildText bool
+		tag            string
+	}
+	var specs []sessSpec
+	bs, bp := defaultFormSessions()
+	for k := range bs {
+		specs = append(specs, sessSpec{bs[k], bp[k], false, false, "block:default-form-session"})
+	}
 	for i := 0; i < nmod; i++ {
 		wild := i%2 == 1
 		forms, probes, wildText := genSession(rng, ctx.Hist, wild, true)
+		tag := "session:modelled-tame"
+		if wild {
+			tag = "session:modelled-wild"
+		}
+		specs = append(specs, sessSpec{forms, probes, wild, wildText, tag})
+	}
+	for i, sp := range specs {
+		forms, probes, wild, wildText := sp.forms, sp.probes, sp.wild, sp.wildText
 		ts := time.Now()
 		o, err := runSession(dir, 100+i, base, forms, probes, wild)
 		if os.Getenv("VERIF_C19_TIMING") != "" && time.Since(ts) > 500*time.Millisecond {
@@ -291,11 +323,7 @@ func Run(ctx *common.Ctx) {
 		if !ok {
 			continue
 		}
-		if wild {
-			ctx.Hist("session:modelled-wild")
-		} else {
-			ctx.Hist("session:modelled-tame")
-		}
+		ctx.Hist(sp.tag)
 		ctx.Meta.Evaluations++
 		distinct[strings.Join(forms, " ")] = true
 		terms = append(terms, term)
